@@ -1809,14 +1809,15 @@ class VM:
         """Create a bound RegExp method."""
 
         def test_fn(*args):
-            string = to_string(args[0]) if args else ""
+            # a missing argument is undefined, i.e. the string "undefined"
+            string = to_string(args[0]) if args else "undefined"
             try:
                 return re.test(string)
             except RegexTimeoutError:
                 raise TimeLimitError("Regex execution timeout")
 
         def exec_fn(*args):
-            string = to_string(args[0]) if args else ""
+            string = to_string(args[0]) if args else "undefined"
             try:
                 return re.exec(string)
             except RegexTimeoutError:
